@@ -47,6 +47,9 @@ def gen_cases(c, rng, shard):
         yield "flags", a
     for _ in range(shard["nrand"]):
         yield "rand", harness.random_args(c, rng)
+    if c.xfer in ("alloc", "read", "write", "allocarg"):
+        for a in harness.huge_cases(c, rng):
+            yield "huge", a
     if c.xfer in ("alloc", "read", "allocarg") and not shard["small"]:
         from vmon.spec import cdb as S
 
@@ -80,6 +83,10 @@ def run_one(ctx, c, setname, kind, a, do_facade, transports):
             w = c.args[k][1]
             cls = "zero" if v == 0 else "ones" if v == (1 << w) - 1 else "onebit" if v & (v - 1) == 0 else "other"
             ctx.add("field_classes", "%s.%s:%s" % (c.name, k, cls))
+    if kind == "huge":
+        with harness.huge_buffers():
+            run_one(ctx, c, setname, "huge*", a, do_facade, transports)
+        return
     # -- constructor
     try:
         cmd = harness.construct(c, setname, DO.fresh(a) if c.custom else a)
